@@ -30,6 +30,7 @@ import shutil
 import numpy as np
 
 from ..lattice import Rel, with_ids
+from .. import wg
 from ..bfs import digest
 from ..oracles import c12_oracle as O
 
@@ -590,8 +591,7 @@ def case_fdladder(p: dict) -> dict:
                 x_spec = s_spec.solveBoltzmannEquations()
                 res_spec = s_spec.getDeltas(x_spec)
                 res_fd = s_fd.getDeltas()
-                eom = EOM.__new__(EOM)  # only the attribute read by the method is provided
-                eom.boltzmannSolver = s_spec
+                eom = wg.construct_eom(boltzmannSolver=s_spec)  # real constructor, stand-in thermodynamics / hydrodynamics
                 before = (s_spec.derivatives, s_spec.basisM, s_spec.basisN, s_spec.collisionArray.getBasisType(),
                           np.array(s_spec.collisionArray[:]).tobytes(), _bg_fingerprint(s_spec.background))
                 res_eom = eom.getBoltzmannFiniteDifference()
@@ -610,8 +610,7 @@ def case_fdladder(p: dict) -> dict:
                 s_ch = _solver(grid, "Cardinal", "Chebyshev", "Spectral", parts, bg)
                 s_ch.setCollisionArray(_collision_array(O.collision_in_basis(Ccard, "Chebyshev", g), "Chebyshev", grid, parts))
                 b4 = (s_ch.derivatives, s_ch.basisN, s_ch.collisionArray.getBasisType(), np.array(s_ch.collisionArray[:]).tobytes())
-                eom2 = EOM.__new__(EOM)
-                eom2.boltzmannSolver = s_ch
+                eom2 = wg.construct_eom(boltzmannSolver=s_ch)
                 try:
                     res2 = eom2.getBoltzmannFiniteDifference()
                     r.true(f"eom-fd-from-chebyshev-leaves-solver-untouched-{tagM}", b4 == (
